@@ -27,6 +27,9 @@ Fixpoint targs_of (l : list ast) : option (list targ) :=
   | x :: t => match targ_of x, targs_of t with Some i, Some r => Some (i :: r) | _, _ => None end
   end.
 
+Lemma pel_ast_leaves ta : map pel_ast (map PLeaf ta) = map targ_ast ta.
+Proof. rewrite map_map. reflexivity. Qed.
+
 Lemma targs_of_ast : forall l ta, targs_of l = Some ta -> l = map targ_ast ta.
 Proof.
   induction l as [|x t IH]; intros ta H; cbn [targs_of] in H.
@@ -51,7 +54,7 @@ Fixpoint f7_item (a : ast) : option item :=
   | AName nm (AConst op v) => match simple_name nm with Some seg => Some (IName (mkDecl seg op v)) | None => None end
   | AName nm (AStr b) => match simple_name nm with Some seg => Some (ILeaf LName seg [] [TStr b]) | None => None end
   | AName nm (APackage k n elems) =>
-      match simple_name nm, targs_of elems with Some seg, Some ta => Some (IPkg seg k n ta) | _, _ => None end
+      match simple_name nm, targs_of elems with Some seg, Some ta => Some (IPkg seg k n (map PLeaf ta)) | _, _ => None end
   | ADevice k nm body => blk BDev k nm [] body
   | AThermal k nm body => blk BTZ k nm [] body
   | AProcessor k nm id addr len body => blk BProc k nm [id; addr; len] body
@@ -114,7 +117,7 @@ Proof.
          cbn [shape_ok bk_ws length Nat.eqb andb]; exact Hb).
   - destruct v; try discriminate; (destruct (simple_name nm) as [seg|] eqn:En; [|discriminate]); apply simple_name_eq in En; subst nm;
       try (destruct (targs_of elems) as [ta|] eqn:Eta; [apply targs_of_ast in Eta; subst elems|discriminate]);
-      intros E; inversion E; split; reflexivity.
+      intros E; inversion E; cbn [item_ast]; rewrite ?pel_ast_leaves; split; reflexivity.
   - destruct off; try discriminate. destruct len; try discriminate. destruct (simple_name nm) as [seg|] eqn:En; [|discriminate]. apply simple_name_eq in En. subst nm.
     intros E; inversion E. split; reflexivity.
   - destruct (simple_name nm) as [seg|] eqn:En; [|discriminate]. apply simple_name_eq in En. subst nm.
